@@ -607,6 +607,7 @@ def _check_faults(ck, eng, requests):
         q = fn.qualname
         outs = eng.run(name, OK, overrides=method_overrides(fn))
         raised = None
+        escaped = {}       # exception class -> first report (one obligation per class)
         deref = None
         unreported = None
         unlatched = None
@@ -624,6 +625,7 @@ def _check_faults(ck, eng, requests):
                     raised = 'lets %s escape (%s)' % (o.value, '; '.join(
                         'raised by %s at line %s' % (n[1], n[2]) for n in o.state.notes
                         if n[0] == 'raised-by') or 'raised in the method')
+                    escaped.setdefault(str(o.value), raised)
                 continue
             _p, err_set = ts_of_state(o.state)
             cls = classify_ret(o.value)
@@ -652,8 +654,14 @@ def _check_faults(ck, eng, requests):
                     if fold_cond(Truthy(e.args[0])) is not True and \
                             not (isinstance(e.args[0], Sym)):
                         empty_msg = 'stores a possibly empty message into self.err (line %d)' % e.line
-        ck.ob('C05-D5-containment', q, raised is None, '%s %s' % (q, raised), fn.loc(),
-              key='%s::exception-escapes' % q)
+        ck.ob('C05-D5-containment', q, not escaped, '%s %s' % (q, raised), fn.loc(),
+              key='%s::exception-escapes' % q) if not escaped else None
+        for exc_name, why in sorted(escaped.items()):
+            # keyed by the class that escapes: a tree that lets OSError out and one that lets
+            # UnicodeDecodeError out have different defects
+            short = exc_name.rsplit('.', 1)[-1]
+            ck.ob('C05-D5-containment', '%s [%s]' % (q, short), False, '%s %s' % (q, why),
+                  fn.loc(), key='%s::exception-escapes:%s' % (q, short))
         ck.ob('C05-D7-failed-result-deref', q, deref is None, '%s %s' % (q, deref), fn.loc(),
               key='%s::deref-failed-result' % q)
         ck.ob('C05-D6-failure-reported', q, unreported is None, '%s %s' % (q, unreported), fn.loc(),
